@@ -1,5 +1,6 @@
 import ProfiVerif.Driver.Codec
 import ProfiVerif.Driver.PhyRx
+import ProfiVerif.Driver.Gap
 open PV PV.Driver
 
 /-
@@ -14,6 +15,8 @@ def main (args : List String) : IO UInt32 := do
   | ["model", "codec"] => engineLoop (fun (_ : Unit) l => ((), (stepCodec (splitWords l)).getD "bad-op")) () inp out; return 0
   | ["model", "decoder"] => engineLoop (fun (_ : Unit) l => ((), (stepDecoder (splitWords l)).getD "bad-op")) () inp out; return 0
   | ["model", "phyrx"] => engineLoop stepPhyRx [] inp out; return 0
+  | ["model", "gap"] => engineLoop (fun (_ : Unit) l => ((), stepGap l)) () inp out; return 0
+  | ["oracle", "C12gap", o, i] => oracleLoop (fun (_ : Unit) op obs => ((), oracleGap op obs)) () o i
   | ["oracle", "C16", o, i] => oracleLoop oracleC16 {} o i
   | ["oracle", "C10", o, i] => oracleLoop (fun (_ : Unit) op obs => ((), oracleC10 op obs)) () o i
   | ["oracle", "C09", o, i] => oracleLoop (fun (_ : Unit) op obs => ((), oracleC09 op obs)) () o i
